@@ -14,7 +14,7 @@ CHECKS = {
  "C02": dict(cat="proof", design="DESIGN.md §4 C02",
    text="Hoare triple for one iteration of hexsim's run() loop (body, syscall, HexSimIO extracted mechanically each run) against isa_step transcribed from "
         "hexb.pdf: for all 2^128 register states, all memory contents, all defined instruction bytes, in-range addresses: registers, stored word + memory "
-        "frame (ghost index), running/exit value, I/O event, lazy file-open discipline, connected[] frame; plus run()'s loop condition/return. Loop-free, so "
+        "frame (ghost index), running/exit value, I/O event, lazy file-open discipline, connected[] frame; plus run()'s loop condition/return; HexSimIO::output/input and Processor::syscall additionally carry dfcc-enforced function contracts (callees replaced by contracts). Loop-free, so "
         "the CBMC result is complete for one step; whole runs follow by induction over steps (paper glue).",
    note="Trusted: CBMC+MiniSat, extractor rules (must-fire counts + native fidelity run real Processor vs extracted step vs isa_step each time), isa_step "
         "transcription, iostream stubs. Tracing off / truncateInputs on (defaults); tracing covered by C12.",
